@@ -121,6 +121,39 @@ func corpus(e *ev.Env) {
 			}
 		})
 	}
+	// an invalidating request whose own origin response is not stored (non-cacheable status, Next,
+	// larger than MaxBytes), plain or with no-cache: the entry it invalidated must be gone afterwards
+	for _, vs := range []bool{false, true} {
+		name := "invalidation-without-restore-memory"
+		if vs {
+			name = "invalidation-without-restore-vstore"
+		}
+		e.Corpus(name, func(c *ev.Case) {
+			cf := conf{Exp: 5, MaxBytes: 1024, VStore: vs, Inv: true, Next: true, StoreHdr: true}
+			var st []step
+			i := 0
+			for _, nocache := range []bool{false, true} {
+				for _, how := range []string{"status", "next", "oversized", "stored"} {
+					k := "i" + strconv.Itoa(i)
+					i++
+					v := rq{Method: "GET", Key: k, Status: 200, Size: 100, Inv: true, NoCache: nocache}
+					switch how {
+					case "status":
+						v.Status = 503
+					case "next":
+						v.Skip = true
+					case "oversized":
+						v.Size = 1025
+					}
+					if nocache && i%2 == 0 {
+						v.CC = "max-age=0,no-cache"
+					}
+					st = append(st, get(k, 100), get(k, 100), step{Q: v}, get(k, 100), get(k, 100))
+				}
+			}
+			runHistory(e, c, cf, st, false)
+		})
+	}
 	// CacheInvalidator returns true for a key the external storage does not hold: manager.get
 	// hands out a zero item (heapidx 0), the middleware marks it expired and removes heap index 0.
 	e.Corpus("invalidator-absent-entry-empty-heap", func(c *ev.Case) {
